@@ -139,7 +139,7 @@ FAMILIES = {
     "C05": {"struct", "uniq", "sweep"}, "C06": set(), "C07": {"struct", "set"}, "C08": {"alg"},
     "C09": {"iter"}, "C10": {"consume", "struct"}, "C11": {"struct", "entry"}, "C12": {"ident"},
     "C13": {"gdm"}, "C14": {"eq"}, "C15": {"clone"}, "C16": {"bulk", "struct"}, "C17": {"struct"},
-    "C18": {"struct"}, "C19": {"fmt"}, "C20": {"serde"},
+    "C18": {"struct", "unchecked"}, "C19": {"fmt"}, "C20": {"serde"},
 }
 
 
@@ -597,6 +597,139 @@ def iter_step(case, reg, toks, t, fails):
     return True
 
 
+def entry_step(case, reg, toks, t, fails):
+    """entry(k) … : Occupied iff present; or_insert* insert only when vacant; occupied/vacant
+    methods = the direct operations on that key."""
+    pre = case.state[reg]["ents"]
+    cap = case.caps[reg]
+    kc, ki = keyarg(toks[2])
+    mods = [int(x) for x in toks[3].strip("[]").split(",") if x]
+    fin = toks[4].split(":")
+    e = find(pre, kc)
+    got = t["snaps"].get(reg)
+    want_kind = "occ" if e is not None else "vac"
+    if t["outcome"] == "ok":
+        parts = split_top(t["ret"][1:-1])
+        if parts and parts[0] != want_kind:
+            fails.append("%s entry: reported %s, the key is %s" % (reg, parts[0], "present" if e else "absent"))
+            return True
+        r = parts[1] if len(parts) > 1 else ""
+    else:
+        r = None
+    # and_modify runs only when occupied
+    cur = [(x[0], x[1], x[2], x[3] + (sum(mods) if x is e else 0)) for x in pre]
+    e2 = find(cur, kc)
+    name = fin[0]
+    if name in ("oi", "oiw", "oiwk", "od", "v.insert"):
+        if name == "v.insert" and e2 is not None:
+            want, post = "occupied", cur
+        elif e2 is not None:
+            want, post = "@%d=V%d.%d" % (cur.index(e2), e2[2], e2[3]), cur
+        else:
+            vi, vv = valarg(fin[1])
+            if len(cur) < cap:
+                post = cur + [(kc, ki, vi, vv)]
+                want = "@%d=V%d.%d" % (len(cur), vi, vv)
+            else:
+                if not is_overflow(t["outcome"]):
+                    fails.append("%s entry(..).%s of a new key on a full map ended %s" % (reg, name, t["outcome"]))
+                expect_state(reg, got, cur, True, fails, "rejected entry insert")
+                return True
+        calls = [x for x in t["ev"] if x in ("c2", "c3", "c4")]
+        if name in ("oiw", "oiwk", "od") and name != "od":
+            if (len(calls) == 1) != (e is None):
+                fails.append("%s %s: default closure ran %d times, entry was %s" % (reg, name, len(calls), want_kind))
+    elif name == "o.get" and e2 is not None:
+        want, post = "@%d=V%d.%d" % (cur.index(e2), e2[2], e2[3]), cur
+    elif name == "o.into_mut" and e2 is not None:
+        want, post = "@%d=V%d.%d" % (cur.index(e2), e2[2], e2[3]), cur
+    elif name == "o.get_mut" and e2 is not None:
+        a = int(fin[1])
+        post = [(x[0], x[1], x[2], x[3] + (a if x is e2 else 0)) for x in cur]
+        want = "@%d=V%d.%d" % (cur.index(e2), e2[2], e2[3] + a)
+    elif name == "o.insert" and e2 is not None:
+        vi, vv = valarg(fin[1])
+        post = [(x[0], x[1], vi, vv) if x is e2 else x for x in cur]
+        want = "V%d.%d" % (e2[2], e2[3])
+    elif name == "o.remove" and e2 is not None:
+        post, want = [x for x in cur if x is not e2], "V%d.%d" % (e2[2], e2[3])
+    elif name == "o.remove_entry" and e2 is not None:
+        post, want = [x for x in cur if x is not e2], "K%d.%d:V%d.%d" % e2
+    elif name == "o.key" and e2 is not None:
+        post, want = cur, "K%d.%d" % (e2[0], e2[1])
+    elif name in ("key",):
+        post, want = cur, ("K%d.%d" % (e2[0], e2[1]) if e2 is not None else "K%d.%d" % (kc, ki))
+    elif name in ("v.key", "v.into_key") and e2 is None:
+        post, want = cur, "K%d.%d" % (kc, ki)
+    else:
+        return True
+    if t["outcome"] != "ok":
+        fails.append("%s entry … %s ended %s" % (reg, name, t["outcome"]))
+        return True
+    if r != want:
+        fails.append("%s entry(%d).%s returned %s, the direct operation gives %s" % (reg, kc, name, r, want))
+    if name in ("o.remove", "o.remove_entry"):
+        if got is not None and ms(got["ents"], True) != ms(post, True):
+            fails.append("%s after entry … %s: holds %s, expected %s" % (reg, name, got["ents"], post))
+    elif got is not None and got["ents"] != post:
+        fails.append("%s after entry … %s: holds %s, expected %s" % (reg, name, got["ents"], post))
+    return True
+
+
+def esc_str(s):
+    return '"' + s.replace("\n", "\\n").replace(" ", "~") + '"'
+
+
+def indent_lines(s):
+    return "\n".join(("    " + l) if l else l for l in s.split("\n"))
+
+
+def dbg_key(e, alt):
+    return ("K(\n    %d,\n    %d,\n)" % (e[0], e[1])) if alt else "K%d.%d" % (e[0], e[1])
+
+
+def dbg_val(e, alt):
+    return ("V(\n    %d,\n    %d,\n)" % (e[2], e[3])) if alt else "V%d.%d" % (e[2], e[3])
+
+
+def fmt_step(case, reg, toks, t, fails):
+    """Debug/Display of a container: std's debug_map/debug_set layout resp. `{a, b}` over the entries
+    in iteration order."""
+    pre = case.state[reg]["ents"]
+    kind = toks[2]
+    isset = reg.startswith("s")
+    if t["outcome"] != "ok":
+        fails.append("%s fmt %s ended %s" % (reg, kind, t["outcome"]))
+        return True
+    if kind in ("display", "display>", "display#"):
+        items = [("k%d.%d" % (e[0], e[1])) if isset else "k%d.%d: v%d.%d" % e for e in pre]
+        want = "{" + ", ".join(items) + "}"
+    elif kind in ("debug", "debug>"):
+        items = [dbg_key(e, False) if isset else dbg_key(e, False) + ": " + dbg_val(e, False) for e in pre]
+        want = "{" + ", ".join(items) + "}"
+    elif kind == "debug#":
+        if not pre:
+            want = "{}"
+        else:
+            want = "{\n"
+            for e in pre:
+                if isset:
+                    want += indent_lines(dbg_key(e, True)) + ",\n"
+                else:
+                    v = dbg_val(e, True).split("\n")
+                    v = "\n".join([v[0]] + [("    " + l) if l else l for l in v[1:]])
+                    want += indent_lines(dbg_key(e, True)) + ": " + v + ",\n"
+            want += "}"
+    else:
+        return True
+    if t["ret"] != esc_str(want):
+        fails.append("%s fmt %s printed %s, the standard rendering of its entries is %s" % (reg, kind, t["ret"], esc_str(want)))
+    g = t["snaps"].get(reg)
+    if g is not None and g["ents"] != pre:
+        fails.append("formatting changed %s" % reg)
+    return True
+
+
 def gdm_step(case, reg, toks, t, fails):
     """get_disjoint_mut: per position what get_mut finds (slot and value), pairwise distinct slots;
     two equal requests that are present must panic."""
@@ -754,6 +887,14 @@ def run(prop, ops_path, impl_path, profile):
                         consume_step(case, reg, toks, t, fails)
                     if "iter" in fam and op == "iter":
                         iter_step(case, reg, toks, t, fails)
+                    if "entry" in fam and op == "entry" and reg.startswith("m"):
+                        entry_step(case, reg, toks, t, fails)
+                    if "fmt" in fam and op == "fmt":
+                        fmt_step(case, reg, toks, t, fails)
+                    if "unchecked" in fam and op == "insert_unchecked":
+                        dict_step(case, reg, ["_", "insert"] + toks[2:], t, fam, True, fails)
+                    if "unchecked" in fam and op == "gdum":
+                        gdm_step(case, reg, toks, t, fails)
                     if "gdm" in fam and op == "gdm":
                         gdm_step(case, reg, toks, t, fails)
                     if "serde" in fam and op == "serde":
